@@ -1331,7 +1331,11 @@ class Machine:
                     raise AbstractViolation("conversion of %s to the integer type %s" % (v, ty))
                 if is_int_type(tyn) and isinstance(simp(v), Fraction):
                     v = simp(v)
-                    return Fraction(int(v)) if v >= 0 else -Fraction(int(-v))
+                    r = Fraction(int(v)) if v >= 0 else -Fraction(int(-v))
+                    if abs(r) >= 2 ** 63:
+                        # no integer type holds it: a floating-point -> integer conversion outside the destination's range is undefined behaviour
+                        raise AbstractViolation("conversion of the value %.3g (magnitude >= 2^63) to the integer type %s is undefined" % (float(v), ty))
+                    return r
                 return v
             if not args:
                 return Fraction(0)
@@ -1642,7 +1646,11 @@ def _cast(M, args, env, name):
     if is_int_type(name or "") and is_num(v):
         q = simp(v)
         if isinstance(q, Fraction):
-            return Fraction(int(q)) if q >= 0 else -Fraction(int(-q))
+            r = Fraction(int(q)) if q >= 0 else -Fraction(int(-q))
+            if abs(r) >= 2 ** 63:
+                # no integer type holds it: a floating-point -> integer conversion outside the destination's range is undefined behaviour
+                raise AbstractViolation("conversion of the value %s (magnitude >= 2^63) to an integer type is undefined" % (("%.3g" % float(q))))
+            return r
     return v
 
 
